@@ -219,7 +219,7 @@ export class TypeGen {
       const p = A.prop(name, this.type(depth - 1), allowOpt && r.chance(0.3));
       if (r.chance(0.15)) p.ro = true;
       if (r.chance(0.1)) p.quote = true;
-      if (this.f.jsdoc && r.chance(0.08)) p.doc = { kind: "jsdoc", text: r.pick(["the field", "a */ tricky doc", "multi word doc"]).replace("*/", "* /") };
+      if (this.f.jsdoc && r.chance(this.f.jsdocRate ?? 0.08)) p.doc = { kind: "jsdoc", text: r.pick(["the field", "a */ tricky doc", "multi word doc", "another wording", "price of the item", "amount paid back"]).replace("*/", "* /") };
       out.push(p);
     }
     return out;
